@@ -95,6 +95,7 @@ CONSTRUCTS = [
     "__docformat__ = 'nosuchformat'\n",
     "class {N}:\n    class bar: pass\n    @foo.setter\n    def bar(self): ...\n    @deprecated(Version('p', 1, 0, 0))\n    def baz(self): ...\n",
     "from zope.interface import implementer, Interface\nclass I{N}(Interface):\n    def m(): 'doc'\ndef some_function(): pass\n@implementer(some_function, I{N})\nclass {N}:\n    def m(self): pass\n",
+    "{n} = re.compile('a{{99999999999999}}')\n{n}2 = re.compile('b{{1,99999999999999999999}}')\n",
     "{n} = " + "+".join(["1"] * 6000) + "\n",
     "{n} = " + "(" * 300 + "1" + ")" * 300 + "\n",
     "{n} = " + "[" * 120 + "]" * 120 + "\n",
@@ -126,6 +127,33 @@ def hostile_module(rng: random.Random) -> str:
         else:
             parts.append("A%d: '%s' = 1\n" % (rng.randrange(9), h.replace("'", "")))
     return "".join(parts)
+
+
+def encoded_module(rng: random.Random) -> bytes:
+    head = rng.choice([b"", b"", b"# -*- coding: latin-1 -*-\n", b"# coding: ascii\n", b"#!/usr/bin/python\n# vim: set fileencoding=utf-8 :\n",
+                       b"# coding: nosuchcodec\n", b"\xef\xbb\xbf", b"\xef\xbb\xbf# coding: latin-1\n", b"# coding: utf-16\n",
+                       b"\n\n# coding: latin-1\n", b"# coding: cp1252\n", b"# coding: utf-8-sig\n"])
+    lines = [b'"""module doc"""', b"import os", b"def enc_f(a, b=1):", b'    """doc of f"""', b"    return a",
+             b"class EncK:", b'    """doc of K"""', b"    attr = 'value'  # comment", b"X = 'text'"]
+    payloads = [b"\xe9", b"caf\xe9", "café".encode("utf-8"), "naïve — ☃".encode("utf-8"), b"\xff\xfe", b"\x00", b"\xc3", b"\xc3\x28",
+                b"\xed\xa0\x80", b"\xf0\x9f\x98\x80", b"\x80abc", b"\x0c", b"\x1a", b"\xa0"]
+    for _ in range(rng.randint(0, 3)):
+        i = rng.randrange(len(lines))
+        pay = rng.choice(payloads)
+        where = rng.randrange(4)
+        if where == 0:
+            lines[i] = lines[i] + b"  # " + pay
+        elif where == 1:
+            lines.insert(i, b"S%d = '" % rng.randrange(9) + pay + b"'")
+        elif where == 2:
+            lines.insert(i, b"# " + pay)
+        else:
+            lines[i] = lines[i].replace(b"doc", b"d" + pay + b"c")
+    eol = rng.choice([b"\n", b"\n", b"\r\n", b"\r"])
+    body = eol.join(lines) + rng.choice([eol, b"", b"\\"])
+    if rng.random() < 0.08:
+        return ("\ufeff" + body.decode("latin-1")).encode(rng.choice(["utf-16", "utf-16-le", "utf-32"]))
+    return head + body
 
 
 def catalogue_module(rng: random.Random, depth: int = 0) -> Tuple[str, int]:
@@ -218,8 +246,15 @@ def make_tree(rng: random.Random) -> Dict[str, Any]:
     prepend = root == "pkg" and rng.random() < 0.12
     if prepend:
         files["pkg/pp.py"] = "from fake.pack import pkg\nfrom fake.pack.pkg import good as g2\nimport fake\nfrom fake import pack as pk\n"
+    extra_roots: List[str] = []
+    if root == "pkg" and not prepend and rng.random() < 0.08:
+        # a second root: a top-level module that the package re-exports (used to abort the run)
+        files["six.py"] = "def u():\n    pass\nclass SixK:\n    pass\n"
+        files["pkg/compat.py"] = "import six\nfrom six import SixK\n"
+        files["pkg/__init__.py"] = "from pkg.compat import six, SixK\nfrom . import compat\n__all__ = ['six', 'SixK', 'compat']\n"
+        extra_roots.append("six.py")
     return {"files": files, "kind": kind, "docformat": rng.choice(DOCFORMATS), "constructs": nconstructs,
-            "werror": rng.random() < 0.3, "prepend": prepend, "root": root}
+            "werror": rng.random() < 0.3, "prepend": prepend, "root": root, "extra_roots": extra_roots}
 
 
 class _Timeout(Exception):
@@ -242,7 +277,7 @@ def run_tree(tree: Dict[str, Any]) -> Dict[str, Any]:
         for rel, src in tree["files"].items():
             p = Path(tmp, "src", rel)
             p.parent.mkdir(parents=True, exist_ok=True)
-            data = src.encode("utf-8", errors="surrogatepass") if isinstance(src, str) else src
+            data = bytes.fromhex(src[5:]) if src.startswith("#HEX:") else src.encode("utf-8", errors="surrogatepass")
             p.write_bytes(data)
             # "does not parse" as a FILE: a source file is read with a final newline (the interpreter's file
             # reader and pydoctor's parseFile both supply one), so 'backslash newline' alone is an empty module
@@ -258,6 +293,7 @@ def run_tree(tree: Dict[str, Any]) -> Dict[str, Any]:
         out = Path(tmp, "out")
         args = ["--html-output", str(out), "--docformat", tree["docformat"], "--project-name", "p", "--quiet",
                 "--make-html", "--make-intersphinx", str(Path(tmp, "src", tree.get("root", "pkg")))]
+        args += [str(Path(tmp, "src", x)) for x in tree.get("extra_roots") or []]
         if tree.get("werror"):
             args.insert(0, "-W")
         if tree.get("prepend"):
@@ -312,7 +348,7 @@ def where(e: BaseException) -> str:
 def judge(ctx: Ctx, tree: Dict[str, Any], r: Dict[str, Any]) -> None:
     o = r["outcome"]
     inp = {"files": tree["files"], "docformat": tree["docformat"], "werror": tree.get("werror"), "prepend": tree.get("prepend"),
-           "root": tree.get("root", "pkg")}
+           "root": tree.get("root", "pkg"), "extra_roots": tree.get("extra_roots")}
     if o is None or o.startswith("harness"):
         ctx.count("harness-trouble")
         ctx.notes.append("harness: " + str(o)[:200]) if len(ctx.notes) < 3 else None
@@ -345,20 +381,30 @@ def run(ctx: Ctx) -> None:
         t = make_tree(ctx.rng)
         t["files"][t["root"] + "/sur.py"] = ctx.rng.choice([
             "def f():\n    '''lone \\udc80 surrogate'''\n", "V = '\\ud800'\n'''doc'''\n",
-            "class C:\n    '''x\n\n    @ivar a: \\udfff\n    '''\n", "def g(a='\\udc00'): pass\n"])
+            "class C:\n    '''x\n\n    @ivar a: \\udfff\n    '''\n", "def g(a='\\udc00'): pass\n",
+            "def f():\n    pass\nf.__doc__ = 'lone \\udc80 surrogate'\n", "class K:\n    pass\nK.__doc__ = 'x \\udfff'\n"])
         t["surrogate_form"] = t["files"][t["root"] + "/sur.py"][:12]
         t["kind"] = "surrogate"
+        trees.append(t)
+    # separate stream: source files as BYTES — encodings, cookies, byte-order marks, undecodable bytes at
+    # various lines, NUL bytes, unusual line endings (a file the tool cannot decode is an unparsable file)
+    for i in range(40 if ctx.quick else 400):
+        t = make_tree(ctx.rng)
+        t["files"][t["root"] + "/enc.py"] = "#HEX:" + encoded_module(ctx.rng).hex()
+        t["kind"] = "encoding"
         trees.append(t)
     with mp.get_context("fork").Pool(min(16, os.cpu_count() or 4)) as pool:
         results = pool.map(run_tree, trees, chunksize=4)
     for t, r in zip(trees, results):
-        nontriv = bool(r.get("bad")) or t["kind"] in ("hostile", "mixed", "surrogate") or t["constructs"] >= 3
+        nontriv = bool(r.get("bad")) or t["kind"] in ("hostile", "mixed", "surrogate", "encoding") or t["constructs"] >= 3
         ctx.case(repr(sorted(t["files"].items())) + t["docformat"], nontriv,
                  {"kind": t["kind"], "docformat": t["docformat"], "files": {k: v[:200] for k, v in list(t["files"].items())[:3]},
                   "outcome": r["outcome"], "unparsable": r.get("bad")} if nontriv and len(ctx.samples) < 3 else None)
         ctx.count("kind:" + t["kind"])
         if t.get("prepend"):
             ctx.count("option:prepend-package")
+        if t.get("extra_roots"):
+            ctx.count("two-roots:root-module-reexported")
         ctx.count("docformat:" + t["docformat"])
         ctx.count("outcome:" + str(r["outcome"]).split(":")[0] + (":" + str(r["outcome"]).split(":")[1] if str(r["outcome"]).startswith("exit") else ""))
         ctx.count("unparsable-files", len(r.get("bad") or []))
@@ -380,7 +426,7 @@ def replay(ctx: Ctx, obj) -> int:
         print(obj)
         return 0
     r = run_tree({"files": inp["files"], "docformat": inp.get("docformat", "epytext"), "werror": inp.get("werror"),
-                  "prepend": inp.get("prepend"), "root": inp.get("root", "pkg"), "kind": "replay", "constructs": 0})
+                  "prepend": inp.get("prepend"), "root": inp.get("root", "pkg"), "extra_roots": inp.get("extra_roots"), "kind": "replay", "constructs": 0})
     print("outcome:", r["outcome"], r.get("detail", ""))
     print(r.get("tail", "")[-600:])
     return 0 if str(r["outcome"]).startswith("exit") else 1
